@@ -168,15 +168,24 @@ struct Sel {
 /// the contents of the nodes on the query's path and of every wildcard that
 /// could (rightly or wrongly) be used for it; nodes that a lookup of that
 /// name has no business visiting keep a fixed content.
+///
+/// The SHAPE of the tree is concrete in every call: a symbolic `w` ranges
+/// over the three contents of a PRESENT *.z. only; "no wildcard" (w = 0,
+/// we = 0) is always a fixed choice of its own call.  (A child attached under
+/// a symbolic condition makes the parent's Vec header symbolic for CBMC; the
+/// same harness with a symbolic presence bit ran out of 10 GB.)
 fn any_sel(symbolic: [bool; 5], fixed: [u8; 5]) -> Sel {
     let s = Sel {
         apex: if symbolic[0] { kani::any() } else { fixed[0] },
         w: if symbolic[1] { kani::any() } else { fixed[1] },
         d: if symbolic[2] { kani::any() } else { fixed[2] },
         f: if symbolic[3] { kani::any() } else { fixed[3] },
-        we: if symbolic[4] { kani::any() } else { fixed[4] },
+        we: fixed[4],
     };
     kani::assume(s.apex < 2 && s.w < 4 && s.d < 3 && s.f < 2 && s.we < 2);
+    if symbolic[1] {
+        kani::assume(s.w != 0);
+    }
     s
 }
 
@@ -408,7 +417,10 @@ struct Witness {
 }
 
 /// All three lookups for one query name.
-fn run_query(q: &[u8], allow_unchecked: bool, symbolic: [bool; 5], fixed: [u8; 5]) -> (Sel, Facts, Witness) {
+/// `kinds` (constants in every caller): run lookup / lookup_addrs / lookup_all.
+/// All three share lookup_base + lookup_impl; what differs is the straight-line
+/// mapping of its result.
+fn run_query(q: &[u8], kinds: [bool; 3], allow_unchecked: bool, symbolic: [bool; 5], fixed: [u8; 5]) -> (Sel, Facts, Witness) {
     let s = any_sel(symbolic, fixed);
     let f = facts(&s);
     // never dropped: the recursive drop glue of the tree is not the subject
@@ -421,6 +433,7 @@ fn run_query(q: &[u8], allow_unchecked: bool, symbolic: [bool; 5], fixed: [u8; 5
     let want = ref_resolve(&f, q, !unchecked, below_cuts);
 
     // single type
+    if kinds[0] {
     let r = zone.lookup(&name, Type::from(TYPE_CODES[ti]), LookupOptions { unchecked, search_below_cuts: below_cuts });
     match (&r, want) {
         (LookupResult::WrongZone, Want::WrongZone) => {}
@@ -443,8 +456,10 @@ fn run_query(q: &[u8], allow_unchecked: bool, symbolic: [bool; 5], fixed: [u8; 5
         _ => assert!(false, "[C06] lookup returns the kind of outcome RFC 1034 4.3.2 / RFC 4592 prescribe"),
     }
     core::mem::forget(r);
+    }
 
     // addresses
+    if kinds[1] {
     let ra = zone.lookup_addrs(&name, LookupOptions { unchecked, search_below_cuts: below_cuts });
     match (&ra, want) {
         (LookupAddrsResult::WrongZone, Want::WrongZone) => {}
@@ -471,8 +486,10 @@ fn run_query(q: &[u8], allow_unchecked: bool, symbolic: [bool; 5], fixed: [u8; 5
         _ => assert!(false, "[C06] lookup_addrs returns the kind of outcome RFC 1034 4.3.2 / RFC 4592 prescribe"),
     }
     core::mem::forget(ra);
+    }
 
     // all records
+    if kinds[2] {
     let rl = zone.lookup_all(&name, LookupOptions { unchecked, search_below_cuts: below_cuts });
     match rl {
         LookupAllResult::WrongZone => assert!(want == Want::WrongZone, "[C06] lookup_all: wrong-zone only for names outside the zone"),
@@ -519,18 +536,372 @@ fn run_query(q: &[u8], allow_unchecked: bool, symbolic: [bool; 5], fixed: [u8; 5
             _ => assert!(false, "[C06] lookup_all: data only for existing or synthesized names"),
         },
     }
+    }
     (s, f, Witness { want, checked: !unchecked, below_cuts, ti })
 }
 
-// @harness props=C06 tier=quick mem=6 t=2400 fn="HashMapTreeZone::lookup,lookup_addrs,lookup_all,lookup_base,lookup_impl,RrsetList::lookup"
-//   bound="zone of the family header with d.z. in {NS (cut), A, empty} and *.z. in {absent, A, CNAME, TXT} symbolic (others fixed: apex full, f.e.z. A, *.e.z. present); query g.d.z. (below the possible cut d.z.); search_below_cuts, unchecked, query type in {A,NS,CNAME,SOA,TXT} symbolic; unwind 8"
-//   sym="2 content selectors (12 zones), 2 option flags, type selector" stubs="eq_ignore_ascii_case" cbmc="--max-field-sensitivity-array-size 1024"
+const ALL: [bool; 3] = [true, true, true];
+const ONLY_LOOKUP: [bool; 3] = [true, false, false];
+// selector order: apex, *.z., d.z., f.e.z., *.e.z.
+const FIXED: [u8; 5] = [0, 1, 0, 0, 1];
+const NO_WILD_Z: [u8; 5] = [0, 0, 0, 0, 1];
+const NO_WILD_EZ: [u8; 5] = [0, 1, 0, 0, 0];
+const SYM_NONE: [bool; 5] = [false; 5];
+const SYM_D: [bool; 5] = [false, false, true, false, false];
+const SYM_W: [bool; 5] = [false, true, false, false, false];
+
+// @harness props=C06 tier=thorough mem=8 t=3400 fn="HashMapTreeZone::lookup,lookup_addrs,lookup_all,lookup_base,lookup_impl,RrsetList::lookup"
+//   bound="zone of the family header, d.z. in {NS (cut), A, empty} symbolic, rest fixed (apex full, *.z. A, f.e.z. A, *.e.z. A); query g.d.z.; all three lookups; search_below_cuts, unchecked, query type in {A,NS,CNAME,SOA,TXT} symbolic; unwind 8"
+//   sym="1 content selector (3 zones), 2 option flags, type selector" stubs="eq_ignore_ascii_case" cbmc="--max-field-sensitivity-array-size 1024"
 #[kani::proof]
 #[kani::unwind(8)]
 #[kani::stub(<[u8]>::eq_ignore_ascii_case, eq_ic_model)]
 fn c06_query_below_cut() {
-    let (s, _f, w) = run_query(NAMES[GDZ], true, [false, false, true, false, false], [0, 1, 0, 0, 1]);
+    let (s, _f, w) = run_query(NAMES[GDZ], ALL, true, SYM_D, FIXED);
     kani::cover!(w.want == Want::Referral(DZ), "referral from a name below the cut");
     kani::cover!(s.d == 0 && w.below_cuts && w.want == Want::Node { data: GDZ, synth: false }, "glue found below the cut with search_below_cuts");
     kani::cover!(s.d == 2 && w.want == Want::Node { data: GDZ, synth: false }, "found below an empty non-terminal");
+}
+
+// @harness props=C06 tier=quick mem=6 t=2400 fn="HashMapTreeZone::lookup,lookup_base,lookup_impl,RrsetList::lookup"
+//   bound="same zone, d.z. symbolic; query d.z. itself (the cut is the name asked for); single-type lookup; flags and type symbolic; unwind 8"
+//   sym="1 content selector (3 zones), 2 option flags, type selector" stubs="eq_ignore_ascii_case" cbmc="--max-field-sensitivity-array-size 1024"
+#[kani::proof]
+#[kani::unwind(8)]
+#[kani::stub(<[u8]>::eq_ignore_ascii_case, eq_ic_model)]
+fn c06_query_at_cut() {
+    let (s, f, w) = run_query(NAMES[DZ], ONLY_LOOKUP, true, SYM_D, FIXED);
+    kani::cover!(w.want == Want::Referral(DZ), "referral at the delegation point itself");
+    kani::cover!(s.d == 0 && w.below_cuts && w.ti == T_NS, "the NS RRset of the cut is found with search_below_cuts");
+    kani::cover!(s.d == 2 && !f.has[DZ][w.ti], "empty non-terminal: no records");
+}
+
+// @harness props=C06 tier=quick mem=8 t=3400 fn="HashMapTreeZone::lookup,lookup_addrs,lookup_all,lookup_base,lookup_impl,RrsetList::lookup"
+//   bound="same zone, *.z. present with content in {A, CNAME, TXT} symbolic, rest fixed; query k.z. (no such node: closest encloser is the apex); all three lookups; flags and type symbolic; unwind 8"
+//   sym="1 content selector (3 zones), 2 option flags, type selector" stubs="eq_ignore_ascii_case" cbmc="--max-field-sensitivity-array-size 1024"
+#[kani::proof]
+#[kani::unwind(8)]
+#[kani::stub(<[u8]>::eq_ignore_ascii_case, eq_ic_model)]
+fn c06_query_wildcard_at_apex() {
+    let (s, _f, w) = run_query(&[1, b'k', 1, b'z', 0], ALL, true, SYM_W, FIXED);
+    kani::cover!(s.w == 2 && w.ti == T_A && w.want == Want::Node { data: WZ, synth: true }, "CNAME synthesized from the wildcard");
+    kani::cover!(s.w == 3 && w.ti == T_TXT, "TXT synthesized from the wildcard");
+    kani::cover!(s.w == 1 && w.ti == T_TXT, "wildcard without the type: no records, with source of synthesis");
+}
+
+// @harness props=C06 tier=thorough mem=6 t=2400 fn="HashMapTreeZone::lookup,lookup_addrs,lookup_all,lookup_base,lookup_impl"
+//   bound="same zone without *.z. (fixed); queries k.z. (all three lookups) and *.z. (the wildcard name itself, absent; single-type lookup): name error; flags and type symbolic; unwind 8"
+//   sym="2 option flags, type selector, per query" stubs="eq_ignore_ascii_case" cbmc="--max-field-sensitivity-array-size 1024"
+#[kani::proof]
+#[kani::unwind(8)]
+#[kani::stub(<[u8]>::eq_ignore_ascii_case, eq_ic_model)]
+fn c06_query_no_wildcard_at_apex() {
+    let (_s, _f, w) = run_query(&[1, b'k', 1, b'z', 0], ALL, true, SYM_NONE, NO_WILD_Z);
+    assert!(w.want == Want::NxDomain, "[C06] the reference says name error when the closest encloser has no wildcard");
+    let (_s2, _f2, w2) = run_query(NAMES[WZ], ONLY_LOOKUP, true, SYM_NONE, NO_WILD_Z);
+    assert!(w2.want == Want::NxDomain, "[C06] the reference says name error for the absent wildcard name");
+    kani::cover!(w.below_cuts && !w.checked, "both options set");
+}
+
+// @harness props=C06 tier=thorough mem=6 t=2400 fn="HashMapTreeZone::lookup,lookup_base,lookup_impl,RrsetList::lookup"
+//   bound="same zone, *.z. present with symbolic content; queries j.k.z. (two labels below the closest encloser: synthesized) and *.z. (the wildcard name itself: exact match, no synthesis); single-type lookup; flags and type symbolic; unwind 8"
+//   sym="1 content selector (3 zones), 2 option flags, type selector, per query" stubs="eq_ignore_ascii_case" cbmc="--max-field-sensitivity-array-size 1024"
+#[kani::proof]
+#[kani::unwind(8)]
+#[kani::stub(<[u8]>::eq_ignore_ascii_case, eq_ic_model)]
+fn c06_query_wildcard_two_labels_and_itself() {
+    let (s, _f, w) = run_query(&[1, b'j', 1, b'k', 1, b'z', 0], ONLY_LOOKUP, true, SYM_W, FIXED);
+    kani::cover!(s.w == 1 && w.want == Want::Node { data: WZ, synth: true }, "synthesis for a name two labels below the closest encloser");
+    let (s2, _f2, w2) = run_query(NAMES[WZ], ONLY_LOOKUP, true, SYM_W, FIXED);
+    kani::cover!(s2.w == 1 && w2.want == Want::Node { data: WZ, synth: false }, "*.z. asked for and present: found without synthesis");
+}
+
+// @harness props=C06 tier=thorough mem=8 t=3400 fn="HashMapTreeZone::lookup,lookup_base,lookup_impl,RrsetList::lookup"
+//   bound="same zone; query k.e.z. (closest encloser is the empty non-terminal e.z.: only *.e.z. may be used, never *.z.) with *.e.z. present (and *.z. content symbolic) and with *.e.z. absent (name error although *.z. exists); single-type lookup; flags and type symbolic; unwind 8"
+//   sym="1 content selector (3 zones), 2 option flags, type selector, per query" stubs="eq_ignore_ascii_case" cbmc="--max-field-sensitivity-array-size 1024"
+#[kani::proof]
+#[kani::unwind(8)]
+#[kani::stub(<[u8]>::eq_ignore_ascii_case, eq_ic_model)]
+fn c06_query_wildcard_below_ent() {
+    let (_s, _f, w) = run_query(&[1, b'k', 1, b'e', 1, b'z', 0], ONLY_LOOKUP, true, SYM_W, FIXED);
+    kani::cover!(w.want == Want::Node { data: WEZ, synth: true }, "synthesized from *.e.z.");
+    let (_s2, _f2, w2) = run_query(&[1, b'k', 1, b'e', 1, b'z', 0], ONLY_LOOKUP, true, SYM_NONE, NO_WILD_EZ);
+    assert!(w2.want == Want::NxDomain, "[C06] the reference says name error: the closest encloser e.z. has no wildcard");
+}
+
+// @harness props=C06 tier=thorough mem=8 t=3400 fn="HashMapTreeZone::lookup,lookup_all,lookup_base,lookup_impl,RrsetList::lookup"
+//   bound="same zone, f.e.z. in {A, CNAME} symbolic; queries e.z. (empty non-terminal; lookup + lookup_all) and F.E.Z. (upper case; lookup); flags and type symbolic; unwind 8"
+//   sym="1 content selector (2 zones), 2 option flags, type selector, per query" stubs="eq_ignore_ascii_case" cbmc="--max-field-sensitivity-array-size 1024"
+#[kani::proof]
+#[kani::unwind(8)]
+#[kani::stub(<[u8]>::eq_ignore_ascii_case, eq_ic_model)]
+fn c06_query_ent_and_leaf() {
+    let (_s, _f, w) = run_query(NAMES[EZ], [true, false, true], true, [false, false, false, true, false], FIXED);
+    kani::cover!(w.want == Want::Node { data: EZ, synth: false }, "the empty non-terminal exists: no records, not a name error");
+    let (s2, _f2, w2) = run_query(&[1, b'F', 1, b'E', 1, b'Z', 0], ONLY_LOOKUP, true, [false, false, false, true, false], FIXED);
+    kani::cover!(s2.f == 1 && w2.ti == T_A, "CNAME at the leaf for an A query");
+    kani::cover!(s2.f == 1 && w2.ti == T_CNAME, "CNAME found for a CNAME query");
+}
+
+// @harness props=C06 tier=thorough mem=8 t=3400 fn="HashMapTreeZone::lookup,lookup_all,lookup_base,lookup_impl,RrsetList::lookup"
+//   bound="same zone, apex content in {SOA+NS+A, A} symbolic; query z. (the apex: its NS is not a cut); lookup + lookup_all; flags and type symbolic; unwind 8"
+//   sym="1 content selector (2 zones), 2 option flags, type selector" stubs="eq_ignore_ascii_case" cbmc="--max-field-sensitivity-array-size 1024"
+#[kani::proof]
+#[kani::unwind(8)]
+#[kani::stub(<[u8]>::eq_ignore_ascii_case, eq_ic_model)]
+fn c06_query_apex() {
+    let (s, _f, w) = run_query(NAMES[Z], [true, false, true], true, [true, false, false, false, false], FIXED);
+    kani::cover!(s.apex == 0 && w.ti == T_NS && !w.below_cuts, "the apex NS RRset is found, not a referral");
+    kani::cover!(s.apex == 1 && w.ti == T_SOA, "no SOA at the apex: no records");
+}
+
+// @harness props=C06 tier=quick mem=6 t=2400 fn="HashMapTreeZone::lookup,lookup_addrs,lookup_all,lookup_base"
+//   bound="fixed zone; checked lookups (all three) of y. and of the root (names outside the zone), and of h.g.d.z. with d.z. symbolic (below glue: referral, or name error - no wildcard applies); flags and type symbolic; unwind 8"
+//   sym="option flags, type selector; 1 content selector for h.g.d.z." stubs="eq_ignore_ascii_case" cbmc="--max-field-sensitivity-array-size 1024"
+#[kani::proof]
+#[kani::unwind(8)]
+#[kani::stub(<[u8]>::eq_ignore_ascii_case, eq_ic_model)]
+fn c06_query_outside_and_deep() {
+    let (_s, _f, w) = run_query(&[1, b'y', 0], ALL, false, SYM_NONE, FIXED);
+    assert!(w.want == Want::WrongZone, "[C06] the reference calls y. outside the zone");
+    let (_s1, _f1, w1) = run_query(&[0], ONLY_LOOKUP, false, SYM_NONE, FIXED);
+    assert!(w1.want == Want::WrongZone, "[C06] the reference calls the root outside the zone");
+    let (s2, _f2, w2) = run_query(&[1, b'h', 1, b'g', 1, b'd', 1, b'z', 0], ONLY_LOOKUP, true, SYM_D, FIXED);
+    kani::cover!(s2.d != 0 && w2.want == Want::NxDomain, "below an existing leaf: name error, the apex wildcard does not apply");
+    kani::cover!(s2.d == 0 && !w2.below_cuts && w2.want == Want::Referral(DZ), "two labels below the cut: referral");
+}
+
+// ---------------------------------------------------------------------------
+// C20 (i): HashMapTreeZone::add's acceptance decision, on the fixed zone
+// ---------------------------------------------------------------------------
+
+/// What single-type lookups say about the fixed zone: used to show that a
+/// rejected add changed nothing observable.
+fn observe_fixed_zone(zone: &HashMapTreeZone, f: &Facts) {
+    let probes: [(&[u8], usize, usize); 4] = [(NAMES[Z], Z, T_A), (NAMES[Z], Z, T_TXT), (NAMES[FEZ], FEZ, T_A), (NAMES[EZ], EZ, T_A)];
+    let mut k = 0;
+    while k < 4 {
+        let (q, node, t) = probes[k];
+        let name = core::mem::ManuallyDrop::new(nm(q));
+        let r = zone.lookup(&name, Type::from(TYPE_CODES[t]), LookupOptions { unchecked: false, search_below_cuts: false });
+        match &r {
+            LookupResult::Found(found) => {
+                assert!(f.has[node][t], "[C20] a rejected add leaves lookups unchanged (no new RRset)");
+                check_rrset_c20(&found.data, node, t);
+            }
+            LookupResult::NoRecords(_) => assert!(!f.has[node][t], "[C20] a rejected add leaves lookups unchanged (no RRset lost)"),
+            _ => assert!(false, "[C20] a rejected add leaves lookups unchanged (same kind of outcome)"),
+        }
+        core::mem::forget(r);
+        k += 1;
+    }
+}
+
+fn check_rrset_c20(r: &SingleRrset, node: usize, t: usize) {
+    assert!(u32::from(r.ttl) == ttl_id(node, t), "[C20] a rejected add leaves the RRset's TTL unchanged");
+    let mut it = r.rdatas.iter();
+    match it.next() {
+        Some(rd) => {
+            let o = rd.octets();
+            assert!(o.len() == 2 && o[0] == rd_octet(node, t) && o[1] == 0, "[C20] a rejected add leaves the RDATA unchanged");
+        }
+        None => assert!(false, "[C20] an RRset is never empty"),
+    }
+    assert!(it.next().is_none(), "[C20] a rejected add adds no RDATA");
+}
+
+// @harness props=C20 tier=quick mem=6 t=2400 fn="HashMapTreeZone::add (acceptance decision),Name::eq_or_subdomain_of"
+//   bound="fixed 7-node zone z. (class IN); add with owner in {y., the root, k.y. (outside), Z. (apex, upper case), f.e.z., k.z. (inside)}, class any u16, type A, any TTL: owners outside are rejected NotInZone whatever the class, owners inside with class != IN are rejected ClassMismatch; after the rejected adds 4 lookups are unchanged; unwind 8"
+//   sym="class:u16, ttl:u32 per add" stubs="eq_ignore_ascii_case" cbmc="--max-field-sensitivity-array-size 1024"
+#[kani::proof]
+#[kani::unwind(8)]
+#[kani::stub(<[u8]>::eq_ignore_ascii_case, eq_ic_model)]
+fn c20_add_rejections() {
+    let s = any_sel(SYM_NONE, FIXED);
+    let f = facts(&s);
+    let mut zone = core::mem::ManuallyDrop::new(build(&s));
+    let rd = [9u8, 9];
+    let r: &Rdata = match (&rd).try_into() {
+        Ok(r) => r,
+        Err(_) => return,
+    };
+    let outside: [&[u8]; 3] = [&[1, b'y', 0], &[0], &[1, b'k', 1, b'y', 0]];
+    let mut k = 0;
+    while k < 3 {
+        let class: u16 = kani::any();
+        let ttl: u32 = kani::any();
+        let owner = core::mem::ManuallyDrop::new(nm(outside[k]));
+        let got = zone.add(&owner, Type::A, Class::from(class), Ttl::from(ttl), r);
+        assert!(got == Err(Error::NotInZone), "[C20] an owner that is not at or below the apex is rejected as NotInZone, whatever its class");
+        k += 1;
+    }
+    let inside: [&[u8]; 3] = [&[1, b'Z', 0], NAMES[FEZ], &[1, b'k', 1, b'z', 0]];
+    let mut k = 0;
+    while k < 3 {
+        let class: u16 = kani::any();
+        kani::assume(class != 1);
+        let ttl: u32 = kani::any();
+        let owner = core::mem::ManuallyDrop::new(nm(inside[k]));
+        let got = zone.add(&owner, Type::A, Class::from(class), Ttl::from(ttl), r);
+        assert!(got == Err(Error::ClassMismatch), "[C20] an owner inside the zone with another class is rejected as ClassMismatch");
+        kani::cover!(class == 3, "class CH offered to an IN zone");
+        k += 1;
+    }
+    observe_fixed_zone(&zone, &f);
+}
+
+// @harness props=C20 tier=thorough mem=8 t=3400 fn="HashMapTreeZone::add,RrsetList::add,RdataSetOwned::insert,HashMapTreeZone::lookup"
+//   bound="fixed 7-node zone; one add at the apex (owner Z., class IN) of type A (RRset exists, TTL rule applies) with any TTL and any 2-octet RDATA, then one add of type TXT (new RRset) with any TTL; lookups of A and TXT at the apex afterwards; unwind 8"
+//   sym="ttl:u32 x2, rdata:[u8;2]" stubs="eq_ignore_ascii_case" cbmc="--max-field-sensitivity-array-size 1024"
+#[kani::proof]
+#[kani::unwind(8)]
+#[kani::stub(<[u8]>::eq_ignore_ascii_case, eq_ic_model)]
+fn c20_add_at_apex() {
+    let s = any_sel(SYM_NONE, FIXED);
+    let mut zone = core::mem::ManuallyDrop::new(build(&s));
+    let owner = core::mem::ManuallyDrop::new(nm(&[1, b'Z', 0]));
+    let ttl: u32 = kani::any();
+    let rd: [u8; 2] = kani::any();
+    let r: &Rdata = match (&rd).try_into() {
+        Ok(r) => r,
+        Err(_) => return,
+    };
+    let norm = if ttl & 0x8000_0000 != 0 { 0 } else { ttl };
+    let got = zone.add(&owner, Type::A, Class::IN, Ttl::from(ttl), r);
+    let accept = norm == ttl_id(Z, T_A);
+    assert!(got == if accept { Ok(()) } else { Err(Error::TtlMismatch) }, "[C20] an in-zone record of the zone's class is accepted exactly when its TTL matches its RRset's");
+    let dup = rd[0] == rd_octet(Z, T_A) && rd[1] == 0;
+    // the A RRset afterwards
+    let apex = core::mem::ManuallyDrop::new(nm(NAMES[Z]));
+    let ra = zone.lookup(&apex, Type::A, LookupOptions { unchecked: false, search_below_cuts: false });
+    match &ra {
+        LookupResult::Found(found) => {
+            assert!(u32::from(found.data.ttl) == ttl_id(Z, T_A), "[C20] the RRset keeps its TTL");
+            let mut it = found.data.rdatas.iter();
+            match it.next() {
+                Some(x) => assert!(x.octets().len() == 2 && x.octets()[0] == rd_octet(Z, T_A) && x.octets()[1] == 0, "[C20] the RDATA stored first stays first"),
+                None => assert!(false, "[C20] an RRset is never empty"),
+            }
+            if accept && !dup {
+                match it.next() {
+                    Some(x) => assert!(x.octets().len() == 2 && x.octets()[0] == rd[0] && x.octets()[1] == rd[1], "[C20] an accepted record is stored"),
+                    None => assert!(false, "[C20] an accepted record is stored"),
+                }
+            }
+            assert!(it.next().is_none(), "[C20] a rejected or duplicate record stores nothing");
+        }
+        _ => assert!(false, "[C20] the apex A RRset is still found"),
+    }
+    core::mem::forget(ra);
+    // a new RRset
+    let ttl2: u32 = kani::any();
+    let got2 = zone.add(&owner, Type::TXT, Class::IN, Ttl::from(ttl2), r);
+    assert!(got2.is_ok(), "[C20] the first record of a new RRset is accepted with any TTL");
+    let rt = zone.lookup(&apex, Type::TXT, LookupOptions { unchecked: false, search_below_cuts: false });
+    match &rt {
+        LookupResult::Found(found) => {
+            let n2 = if ttl2 & 0x8000_0000 != 0 { 0 } else { ttl2 };
+            assert!(u32::from(found.data.ttl) == n2, "[C20] the new RRset has its record's TTL");
+        }
+        _ => assert!(false, "[C20] the new RRset is found"),
+    }
+    core::mem::forget(rt);
+    kani::cover!(accept && !dup, "a second A record accepted");
+    kani::cover!(accept && dup, "a duplicate A record accepted and ignored");
+    kani::cover!(!accept, "an A record rejected for its TTL");
+    kani::cover!(ttl == 0x8000_0000 + 1, "a TTL with the top bit set");
+}
+
+// ---------------------------------------------------------------------------
+// C20 (iii): iteration
+// ---------------------------------------------------------------------------
+
+fn node_of(n: &Name) -> usize {
+    let mut idx = NN;
+    let mut i = 0;
+    while i < NN {
+        if same_name(n, NAMES[i]) {
+            idx = i;
+        }
+        i += 1;
+    }
+    idx
+}
+
+// @harness props=C20 tier=thorough mem=8 t=3400 fn="HashMapTreeZone::iter_by_node,node::Iter::next,HashMapTreeZone::soa,HashMapTreeZone::ns,RrsetList::iter"
+//   bound="7-node zone of the family header with the apex content in {SOA+NS+A, A} and d.z. in {NS, A, empty} symbolic; full iter_by_node (names and RRset types per node, as sets), soa() and ns() against the iteration; unwind 10"
+//   sym="2 content selectors (6 zones)" stubs="eq_ignore_ascii_case" cbmc="--max-field-sensitivity-array-size 1024"
+#[kani::proof]
+#[kani::unwind(10)]
+#[kani::stub(<[u8]>::eq_ignore_ascii_case, eq_ic_model)]
+fn c20_iter_by_node() {
+    let s = any_sel([true, false, true, false, false], FIXED);
+    let f = facts(&s);
+    let zone = core::mem::ManuallyDrop::new(build(&s));
+    let mut seen = [false; NN];
+    let mut soa_ttl: Option<u32> = None;
+    let mut ns_ttl: Option<u32> = None;
+    let mut it = core::mem::ManuallyDrop::new(zone.iter_by_node());
+    let mut k = 0;
+    while k < NN + 1 {
+        if let Some((name, rrsets)) = it.next() {
+            let node = node_of(name);
+            assert!(node < NN, "[C20] iteration yields only nodes of the zone");
+            if node < NN {
+                assert!(f.exists[node] && !seen[node], "[C20] iteration yields every node once");
+                seen[node] = true;
+                let mut types = [false; NT];
+                let mut rr = core::mem::ManuallyDrop::new(rrsets);
+                let mut j = 0;
+                while j < 4 {
+                    if let Some(rs) = rr.next() {
+                        let code = u16::from(rs.rr_type);
+                        let mut t = NT;
+                        let mut m = 0;
+                        while m < NT {
+                            if TYPE_CODES[m] == code {
+                                t = m;
+                            }
+                            m += 1;
+                        }
+                        assert!(t < NT, "[C20] iteration yields only the RRsets added");
+                        if t < NT {
+                            assert!(!types[t] && f.has[node][t], "[C20] iteration yields exactly the RRsets added, each once");
+                            types[t] = true;
+                            assert!(u32::from(rs.ttl) == ttl_id(node, t), "[C20] iteration yields the RRset stored at that node");
+                            if node == Z && t == T_SOA {
+                                soa_ttl = Some(u32::from(rs.ttl));
+                            }
+                            if node == Z && t == T_NS {
+                                ns_ttl = Some(u32::from(rs.ttl));
+                            }
+                        }
+                        core::mem::forget(rs);
+                    }
+                    j += 1;
+                }
+                let mut t = 0;
+                while t < NT {
+                    assert!(types[t] == f.has[node][t], "[C20] iteration yields every RRset added");
+                    t += 1;
+                }
+            }
+        }
+        k += 1;
+    }
+    let mut n = 0;
+    while n < NN {
+        assert!(seen[n] == f.exists[n], "[C20] iteration yields every node, including empty non-terminals");
+        n += 1;
+    }
+    // soa() / ns() agree with the iteration
+    let soa = zone.soa();
+    assert!(soa.as_ref().map(|r| u32::from(r.ttl)) == soa_ttl, "[C20] soa() agrees with iteration");
+    let ns = zone.ns();
+    assert!(ns.as_ref().map(|r| u32::from(r.ttl)) == ns_ttl, "[C20] ns() agrees with iteration");
+    core::mem::forget(soa);
+    core::mem::forget(ns);
+    kani::cover!(s.apex == 0 && soa_ttl.is_some(), "apex with SOA and NS");
+    kani::cover!(s.apex == 1 && soa_ttl.is_none(), "apex without SOA");
+    kani::cover!(s.d == 2 && seen[DZ] && seen[EZ], "two empty non-terminals were yielded");
 }
